@@ -28,9 +28,24 @@ def outcome_terms(results, special=None):
 def canon_addresses(text):
     return re.sub(r"0x[0-9a-f]+", "0x0", text)
 
+def _prog(p):
+    return p if isinstance(p, dict) else {"text": p}
+
 def driver_lines(programs, env="p", opts=""):
-    o = f"env={env}" + ("," + opts if opts else "")
-    return [f"run {o} {enc(p)}" for p in programs]
+    lines = []
+    for p in programs:
+        p = _prog(p)
+        o = [f"env={env}"]
+        if opts:
+            o.append(opts)
+        if p.get("umb"):
+            o.append("umb=" + ";".join(f"{k}:{c}" for k, c in p["umb"]))
+        if p.get("attach"):
+            o.append("attach=1")
+        if p.get("stdin") is not None:
+            o.append("stdin=" + "/".join(".".join(str(ord(ch)) for ch in c) if c else "-" for c in p["stdin"]))
+        lines.append(f"run {','.join(o)} {enc(p['text'])}")
+    return lines
 
 def expected_term(ans):
     """(coq term for the expected observation, parsed answer) or (None, parsed) for crashes etc."""
@@ -48,13 +63,15 @@ Local Open Scope N_scope.
 Definition mf := N.to_nat 200000.
 Definition run_fuel := N.to_nat 30000.
 Definition ends_special (l : list outcome) : bool := match rev l with (OPanic | OFuel) :: _ => true | _ => false end.
-Definition chk (st0 : state) (c : text * (list outcome * text * N)) : bool :=
-  let '(prog, (exp, eout, epolls)) := c in
-  let '(st, os) := run_text run_fuel st0 prog in
+Definition prepare (st : state) (inj : list (N * text)) (att : bool) (input : list text) : state :=
+  State (mods st) (cur st) (gensyms st) (out st) input (att || match inj with [] => false | _ => true end) [] inj 0.
+Definition chk (st0 : state) (c : text * list (N * text) * bool * list text * (list outcome * text * N)) : bool :=
+  let '(prog, inj, att, input, (exp, eout, epolls)) := c in
+  let '(st, os) := run_text run_fuel (prepare st0 inj att input) prog in
   outcomes_match mf [] os exp && (ends_special exp || (text_eqb (out st) eout && (polls st =? epolls))).
-Definition chk_nopolls (st0 : state) (c : text * (list outcome * text * N)) : bool :=
-  let '(prog, (exp, eout, epolls)) := c in
-  let '(st, os) := run_text run_fuel st0 prog in
+Definition chk_nopolls (st0 : state) (c : text * list (N * text) * bool * list text * (list outcome * text * N)) : bool :=
+  let '(prog, inj, att, input, (exp, eout, epolls)) := c in
+  let '(st, os) := run_text run_fuel (prepare st0 inj att input) prog in
   outcomes_match mf [] os exp && (ends_special exp || text_eqb (out st) eout).
 """
 
@@ -63,19 +80,26 @@ def correspond(name, programs, env="p", opts="", shard_size=40, timeout=6.0, pro
     answers = run_driver_cases(driver_lines(programs, env, opts), profile=profile, timeout=timeout)
     terms, idx, parsed = [], [], []
     for i, (p, a) in enumerate(zip(programs, answers)):
+        p = _prog(p)
         t, r = expected_term(a)
         parsed.append(r)
         if t is None:
             continue
-        terms.append(f"({coq_text(p)}, {t})")
+        inj = "[" + "; ".join(f"({k}, {coq_text(c)})" for k, c in p.get("umb", [])) + "]"
+        inp = "[" + "; ".join(coq_text(c) for c in (p.get("stdin") or [])) + "]"
+        terms.append(f"({coq_text(p['text'])}, {inj}, {'true' if p.get('attach') else 'false'}, {inp}, {t})")
         idx.append(i)
     st = state_expr or STATE_OF[env]
     chk = "chk" if compare_polls else "chk_nopolls"
-    bad = coq_check_shards(name, PREAMBLE, terms, f"{chk} {st}", shard_size=shard_size, timeout=1200, case_type="text * (list outcome * text * N)")
+    bad = coq_check_shards(name, PREAMBLE, terms, f"{chk} {st}", shard_size=shard_size, timeout=1200,
+                           case_type="text * list (N * text) * bool * list text * (list outcome * text * N)")
     return answers, parsed, [idx[b] for b in bad]
 
 def model_outcome(program, env="p", state_expr=None):
     """what the model computes for one program (for replay files / diagnostics)"""
+    p = _prog(program)
     st = state_expr or STATE_OF[env]
-    src = PREAMBLE + f"Eval vm_compute in (let '(st, os) := run_text run_fuel {st} {coq_text(program)} in (os, out st, polls st)).\n"
+    inj = "[" + "; ".join(f"({k}, {coq_text(c)})" for k, c in p.get("umb", [])) + "]"
+    inp = "[" + "; ".join(coq_text(c) for c in (p.get("stdin") or [])) + "]"
+    src = PREAMBLE + f"Eval vm_compute in (let '(st, os) := run_text run_fuel (prepare {st} {inj} {'true' if p.get('attach') else 'false'} {inp}) {coq_text(p['text'])} in (os, out st, polls st)).\n"
     return coq_eval("model_one", src, timeout=600)[:6000]
